@@ -13,7 +13,7 @@ TIERS = {
 NEED = {
     "C08": ["released", "releasedBridged", "releasedWithInterest", "atBoundary", "rejectedLoans", "withdrawnWithPledge", "repaid",
             "handedOver", "rewardPaid", "stableBorrowed", "walked", "confOkSteps", "drawn"],
-    "C09": ["seizures", "sweepSeizures", "bridgedSeizures", "bridged2Seizures", "safeLiquidateRequests", "killedSteps", "blocks", "longWaits"],
+    "C09": ["seizures", "sweepSeizures", "bridgedSeizures", "bridged2Seizures", "safeLiquidateRequests", "nearSafeRequests", "nearSafeBridged2", "killedSteps", "blocks", "longWaits"],
     "C10": ["okBids", "partialBids", "closingBids", "oversizedBids", "priceChecks", "bridgedCloses", "ownerRefunds", "auctionBlocks", "restarts"],
 }
 
